@@ -60,10 +60,15 @@ def run(ctx: common.Ctx):
     for si, shape in enumerate(shapes):
         for dj in range(3 if quick else len(dts)):
             d = dts[(si * 5 + dj * 7 + ctx.seed) % len(dts)]
-            for kind in ("eager", "lazy-static", "lazy-symbolic", "lazy-unknown"):
+            for kind in ("eager", "lazy-static", "lazy-symbolic", "lazy-unknown", "eager-copy", "lazy-derived", "eager-updated-lazy"):
                 rows.append((d, shape, kind))
     lines, infos = [], []
-    for d, shape, kind in rows:
+    # arrays with a history behave like the plain kind they denote: a copy of data holds data; a value derived from a
+    # placeholder, and a data-holding array updated in place with a placeholder, hold none (static shape known)
+    BASE = {"eager-copy": "eager", "lazy-derived": "lazy-static", "eager-updated-lazy": "lazy-static"}
+    rows = [(d, shape, kind) for d, shape, kind in rows]
+    for d, shape, kind0 in rows:
+        kind = BASE.get(kind0, kind0)
         size = int(np.prod(shape)) if shape else 1
         if kind == "eager":
             lead = "none" if not shape else str(shape[0])
@@ -73,7 +78,8 @@ def run(ctx: common.Ctx):
             lead = "none" if not shape else (str(shape[0]) if kind == "lazy-static" else "?")
         lines.append(f"proto {hv} {size} {len(shape)} {kind_of(d)} {lead} {1 if impl.is_nullable(d) else 0}")
     answers = common.model(lines)
-    for (d, shape, kind), ans in zip(rows, answers):
+    for (d, shape, kind0), ans in zip(rows, answers):
+        kind = BASE.get(kind0, kind0)
         parts = ans.split()
         model = dict(zip([p for p, _ in protos], parts[1:7]))
         numpy_rule = dict(zip([p for p, _ in protos], parts[8:14]))
@@ -83,20 +89,33 @@ def run(ctx: common.Ctx):
         if d.endswith("utf8"):
             val = (np.ma.masked_array(np.full(shape, "7"), mask=np.zeros(shape, dtype=bool)) if impl.is_nullable(d)
                    else np.full(shape, "7"))
-        if kind == "eager":
-            a = ndx.asarray(val)
-        else:
-            decl = shape if kind == "lazy-static" else tuple((f"D{i}" if kind == "lazy-symbolic" else None) for i in range(len(shape)))
-            a = ndx.array(shape=decl, dtype=impl.dt(d))
+        try:
+            if kind0 == "eager-copy":
+                a = ndx.asarray(val).copy()
+            elif kind0 == "lazy-derived":
+                a = ndx.array(shape=shape, dtype=impl.dt(d))[...].copy()
+            elif kind0 == "eager-updated-lazy":
+                a = ndx.asarray(val)
+                a.to_numpy()
+                a[...] = ndx.array(shape=(), dtype=impl.dt(d))
+            elif kind == "eager":
+                a = ndx.asarray(val)
+            else:
+                decl = shape if kind == "lazy-static" else tuple((f"D{i}" if kind == "lazy-symbolic" else None) for i in range(len(shape)))
+                a = ndx.array(shape=decl, dtype=impl.dt(d))
+        except Exception:
+            ctx.count(f"{kind0}:construction-unsupported")
+            continue
+        kind = kind0 if kind0 not in BASE else kind
         npv = np.ma.getdata(val) if impl.is_nullable(d) else val
         for pname, f in protos:
             got = attempt(f, a)
-            ident = (d, shape, kind, pname)
+            ident = (d, shape, kind0, pname)
             nontriv = kind != "eager" or (len(shape) == 0 or int(np.prod(shape)) == 1)
             ctx.case(ident, nontriv, {"dtype": d, "shape": shape, "array": kind, "protocol": pname, "outcome": got[0]}
                      if len(ctx.samples) < 8 and nontriv else None)
-            ctx.count(f"{kind}:{pname}:{got[0]}")
-            sig = f"{pname}/{kind}/{kind_of(d)}-rank{min(len(shape), 2)}{'+' if len(shape) > 2 else ''}"
+            ctx.count(f"{kind0}:{pname}:{got[0]}")
+            sig = f"{pname}/{kind0}/{kind_of(d)}-rank{min(len(shape), 2)}{'+' if len(shape) > 2 else ''}"
             if got[0] == "other":
                 ctx.violation(f"{sig}/raises-{got[1]}", f"{pname}() on {kind} {d}{list(shape)} raised {got[1]}",
                               {"dtype": d, "shape": shape, "array": kind, "protocol": pname, "observed": got})
